@@ -29,9 +29,9 @@ def register(reg):
     UORDER = ('forall(lambda a=Bytes, b=Bytes: implies(a in self.utxo_db.g_map and b in self.utxo_db.g_map and '
               'has_prefix(UPFX, a) and has_prefix(UPFX, b), blt(a, b) == (uh(a) < uh(b))))')
 
-    reg.contract(DBK + '.min_undo_height', params={'max_height': Int}, returns=Int, raises={},
+    reg.contract(DBK + '.min_undo_height', params={'max_height': Int}, returns=Int, raises={}, assumes_inv=False, maintains_inv=False,
                  ensures=[('def', 'result == max_height - self.env.reorg_limit + 1')], props=['C15'])
-    reg.contract(DBK + '.undo_key', params={'height': Int}, returns=KBytes,
+    reg.contract(DBK + '.undo_key', params={'height': Int}, returns=KBytes, assumes_inv=False, maintains_inv=False,
                  raises={'struct.error': ['height < 0 or height >= 4294967296']},
                  ensures=[('def', 'result == concat(UPFX, beu_enc(height, 4))'), ('range', '0 <= height and height < 4294967296')],
                  props=['C15'])
